@@ -662,3 +662,109 @@ Proof.
 Qed.
 
 End Outside.
+
+(* ---------- resizable (nested) volumes: Go's bit-mask Align on a power-of-two block size ---------- *)
+
+Lemma land_clear_low x k : 0 <= x < 2 ^ 64 -> 0 <= k <= 64 ->
+  Z.land x (2 ^ 64 - 2 ^ k) = x - x mod 2 ^ k.
+Proof.
+  intros Hx Hk.
+  assert (Em : 2 ^ 64 - 2 ^ k = Z.shiftl (Z.ones (64 - k)) k).
+  { rewrite Z.shiftl_mul_pow2 by lia. rewrite Z.ones_equiv. unfold Z.pred.
+    rewrite Z.mul_add_distr_r. rewrite <- Z.pow_add_r by lia. replace (64 - k + k) with 64 by lia. lia. }
+  assert (Er : x - x mod 2 ^ k = Z.shiftl (Z.shiftr x k) k).
+  { rewrite Z.shiftl_mul_pow2, Z.shiftr_div_pow2 by lia.
+    pose proof (Z.div_mod x (2 ^ k) ltac:(apply Z.pow_nonzero; lia)). lia. }
+  rewrite Em, Er. apply Z.bits_inj'. intros n Hn.
+  rewrite Z.land_spec. rewrite !Z.shiftl_spec by lia.
+  destruct (Z_lt_dec n k) as [Hlt | Hge].
+  - rewrite (Z.testbit_neg_r _ (n - k)) by lia. rewrite (Z.testbit_neg_r _ (n - k)) by lia.
+    apply andb_false_r.
+  - rewrite Z.shiftr_spec by lia. replace (n - k + k) with n by lia.
+    rewrite Z.testbit_ones by lia.
+    destruct (Z_lt_dec n 64) as [H64 | H64].
+    + replace ((0 <=? n - k) && (n - k <? 64 - k)) with true by lia. apply andb_true_r.
+    + replace ((0 <=? n - k) && (n - k <? 64 - k)) with false by lia. rewrite andb_false_r.
+      symmetry. apply Z.bits_above_log2; [lia|].
+      destruct (Z.eq_dec x 0) as [-> | Hne]; [cbn; lia|].
+      apply Z.log2_lt_pow2; [lia|]. apply Z.lt_le_trans with (2 ^ 64); [lia|].
+      apply Z.pow_le_mono_r; lia.
+Qed.
+
+Lemma align_go_pow2 v k : 0 <= v -> 0 <= k < 64 -> v + 2 ^ k - 1 < 2 ^ 64 ->
+  align_go v (2 ^ k) = align v (2 ^ k).
+Proof.
+  intros Hv Hk Hb. unfold align_go, align.
+  assert (Hp : 0 < 2 ^ k) by (apply Z.pow_pos_nonneg; lia).
+  assert (Hlt : 2 ^ k < 2 ^ 64) by (apply Z.pow_lt_mono_r; lia).
+  rewrite (Z.mod_small (v + 2 ^ k - 1)) by lia.
+  rewrite (Z.mod_small (2 ^ 64 - 2 ^ k)) by lia.
+  rewrite land_clear_low by lia.
+  pose proof (Z.div_mod (v + 2 ^ k - 1) (2 ^ k) ltac:(lia)). lia.
+Qed.
+
+(* a rebuilt resizable volume with a power-of-two block size: exactly Length bytes, Length is the
+   old one or, when the files need more, the next block boundary, and the first block-map entry
+   says so *)
+Lemma asm_vol_v_len_resizable fx pol ffs3 h buf files h' b c k rest :
+  asm_vol_v fx pol ffs3 h buf files = Ok (h', b) ->
+  vol_verbatim fx h files = false -> v_resizable h = true ->
+  v_blocks h = (c, 2 ^ k) :: rest -> 0 <= k < 64 -> 0 <= v_dataoff h ->
+  end_of (v_dataoff h) files + 2 ^ k <= 2 ^ 64 ->
+  zlen b = v_length h' /\
+  ((v_length h' = v_length h /\ v_blocks h' = v_blocks h) \/
+   (v_length h < v_length h' /\ v_length h' = align (end_of (v_dataoff h) files) (2 ^ k) /\
+    v_blocks h' = ((v_length h' / 2 ^ k) mod U32, 2 ^ k) :: rest)).
+Proof.
+  intros H Hv Hr Hb Hk Hd Hend. unfold asm_vol_v in H. rewrite Hv, Hr, Hb in H.
+  assert (Hp : 0 < 2 ^ k) by (apply Z.pow_pos_nonneg; lia).
+  destruct (v_length h <? zlen buf); [discriminate|].
+  destruct (v_dataoff h <? v_hdrlen h) eqn:E1; [discriminate|].
+  destruct (fx && (zlen buf <? v_dataoff h)); [discriminate|].
+  destruct (slice 0 (v_dataoff h) buf) as [hdr|] eqn:Esl; [|discriminate].
+  cbn [of_opt bind] in H.
+  apply bind_ok in H as (b1 & Hpl & H).
+  apply slice_len in Esl as (Lh & _ & _). rewrite Z.sub_0_r in Lh.
+  destruct (place_files_layout pol None files hdr (v_dataoff h) b1 Lh Hd Hpl) as (Le & _ & _ & _).
+  cbn [negb andb] in H. rewrite andb_false_r in H.
+  replace (2 ^ k =? 0) with false in H by lia.
+  rewrite align_go_pow2 in H by (try apply zlen_nonneg; rewrite ?Le; lia).
+  pose proof (align_ge (zlen b1) (2 ^ k) Hp) as Ga.
+  destruct (v_length h <? zlen b1) eqn:E2; cbn [bind] in H.
+  - set (l := align (zlen b1) (2 ^ k)) in *.
+    set (b2 := if zlen b1 <? l then b1 ++ zrepeat pol (l - zlen b1) else b1) in *.
+    assert (L2 : zlen b2 = l).
+    { unfold b2. destruct (zlen b1 <? l) eqn:E; [rewrite zlen_app, zlen_zrepeat by lia; lia | lia]. }
+    destruct (zlen b2 <? 40) eqn:E3; [discriminate|].
+    set (b3 := splice 32 (le_enc 8 l) b2) in *.
+    set (b4 := if ffs3 && bytes_eqb (v_guid h) FFS2 then splice 16 FFS3 b3 else b3) in *.
+    assert (L3 : zlen b3 = zlen b2) by (apply zlen_splice; rewrite ?le8; lia).
+    assert (L4 : zlen b4 = zlen b2).
+    { unfold b4. destruct (ffs3 && bytes_eqb (v_guid h) FFS2); [|exact L3].
+      rewrite zlen_splice; [exact L3 | lia | change (zlen FFS3) with 16; lia]. }
+    destruct (zlen b4 <? 60) eqn:E4; [discriminate|].
+    match type of H with context [slice 0 (v_hdrlen h) ?b6] => destruct (slice 0 (v_hdrlen h) b6) as [hb|]; [|discriminate] end.
+    destruct (negb (Z.even (v_hdrlen h))); [discriminate|].
+    inversion H; subst h' b. cbn [v_length v_blocks]. split.
+    + rewrite zlen_splice; rewrite ?le2, ?zlen_splice; rewrite ?le4, ?L4; try lia;
+        change (zlen [0; 0]) with 2; rewrite ?zlen_splice; rewrite ?le4, ?L4; lia.
+    + right. unfold l. rewrite Le. repeat split; auto. rewrite <- Le. lia.
+  - set (b2 := if zlen b1 <? v_length h then b1 ++ zrepeat pol (v_length h - zlen b1) else b1) in *.
+    assert (L2 : zlen b2 = v_length h).
+    { unfold b2. destruct (zlen b1 <? v_length h) eqn:E; [rewrite zlen_app, zlen_zrepeat by lia; lia | lia]. }
+    destruct (zlen b2 <? 40) eqn:E3; [discriminate|].
+    set (b3 := splice 32 (le_enc 8 (v_length h)) b2) in *.
+    set (b4 := if ffs3 && bytes_eqb (v_guid h) FFS2 then splice 16 FFS3 b3 else b3) in *.
+    assert (L3 : zlen b3 = zlen b2) by (apply zlen_splice; rewrite ?le8; lia).
+    assert (L4 : zlen b4 = zlen b2).
+    { unfold b4. destruct (ffs3 && bytes_eqb (v_guid h) FFS2); [|exact L3].
+      rewrite zlen_splice; [exact L3 | lia | change (zlen FFS3) with 16; lia]. }
+    rewrite Hb in H.
+    destruct (zlen b4 <? 60) eqn:E4; [discriminate|].
+    match type of H with context [slice 0 (v_hdrlen h) ?b6] => destruct (slice 0 (v_hdrlen h) b6) as [hb|]; [|discriminate] end.
+    destruct (negb (Z.even (v_hdrlen h))); [discriminate|].
+    inversion H; subst h' b. cbn [v_length v_blocks]. split.
+    + rewrite zlen_splice; rewrite ?le2, ?zlen_splice; rewrite ?le4, ?L4; try lia;
+        change (zlen [0; 0]) with 2; rewrite ?zlen_splice; rewrite ?le4, ?L4; lia.
+    + left. split; [reflexivity | symmetry; exact Hb].
+Qed.
